@@ -1,5 +1,33 @@
 package h
 
+import (
+	"reflect"
+
+	"github.com/mlange-42/arche/ecs"
+)
+
+func (s *Sess) resRegister(key string) {
+	id := ecs.ResourceTypeID(s.W, TypeOfKey(key))
+	for _, o := range s.ResIDs {
+		if o == id {
+			return
+		}
+	}
+	s.ResIDs = append(s.ResIDs, id)
+	s.ResKeys = append(s.ResKeys, key)
+}
+
+// resAdd adds a fresh value of the resource's type; the pointer is kept for identity checks.
+func (s *Sess) resAdd(op *Op) {
+	v := reflect.New(TypeOfKey(s.ResKeys[op.ID])).Interface()
+	s.W.Resources().Add(s.ResIDs[op.ID], v)
+	s.keep = append(s.keep, v)
+}
+
+func (s *Sess) resRemove(op *Op) {
+	s.W.Resources().Remove(s.ResIDs[op.ID])
+}
+
 // ResModel is the model of world resources.
 type ResModel struct {
 	Present map[int]any
